@@ -128,6 +128,12 @@ def _gen_recs(r, adversarial=True, big_ok=True):
             vals[i] = _clip_strings(vals[i])
         if not (big_ok and r.chance(12)):
             rec = _tame_filesize(rec, "record")
+        if r.chance(20):
+            # just before this record is written, a descriptor object of its own is made for the same definition (another
+            # reader / module defining the type again): equal, not identical - still the same type, the same run
+            while len(rec) < 4:
+                rec.append({})
+            rec[3] = dict(rec[3] or {}, _fresh_desc=True)
         recs.append(rec)
     return recs
 
@@ -473,7 +479,11 @@ def run_real(case):
                     w = RecordWriter("csvfile://" + path, **case["opts"])
                 else:
                     w = CsvfileWriter(path, **case["opts"])
-                for rec in recs:
+                keep = []
+                for rec, rspec in zip(recs, case["recs"]):
+                    if len(rspec) > 3 and rspec[3] and rspec[3].get("_fresh_desc"):
+                        from flow.record import RecordDescriptor
+                        keep.append(RecordDescriptor(rspec[1][0], [(t, n) for t, n in rspec[1][1]]))
                     w.write(rec)
                 w.flush()
                 w.close()
